@@ -296,6 +296,117 @@ func (lg *ledger) postBounds(call *ssa.Call, flagIdx int) []diffC {
 	return out
 }
 
+// elemPost: what a function of the module guarantees about every element of the []int it returns.
+type elemPost struct {
+	kind  string // nonneg | ltParam (element <= parameter - 1)
+	param int
+}
+
+// elemPostsOf: g returns nil or a slice literal on every return; each element, under the facts known at
+// that return (including that its int parameters are >= 0 where every call site passes such values), is
+// >= 0 / below an int parameter.
+func (w *World) elemPostsOf(g *ssa.Function) []elemPost {
+	if g == nil || !inModule(g) || len(g.Blocks) == 0 || len(g.Blocks) > 40 || g.Signature.Results().Len() != 1 {
+		return nil
+	}
+	sl, ok := g.Signature.Results().At(0).Type().Underlying().(*types.Slice)
+	if !ok || !isIntType(sl.Elem()) {
+		return nil
+	}
+	mk := fmt.Sprintf("elems/%p", g)
+	w.memoMu.Lock()
+	if w.postMemo == nil {
+		w.postMemo = map[string]interface{}{}
+	}
+	cached, have := w.postMemo[mk]
+	if !have {
+		w.postMemo[mk] = []elemPost(nil) // in progress: nothing is known yet (a recursive question gets no answer)
+	}
+	w.memoMu.Unlock()
+	if have {
+		return cached.([]elemPost)
+	}
+	lgG := newLedger(w, g)
+	lgG.depth = 1
+	cands := []elemPost{{"nonneg", -1}}
+	for k, prm := range g.Params {
+		if isIntType(prm.Type()) {
+			cands = append(cands, elemPost{"ltParam", k})
+		}
+	}
+	nRet := 0
+	for _, b := range g.Blocks {
+		r, isRet := b.Instrs[len(b.Instrs)-1].(*ssa.Return)
+		if !isRet {
+			continue
+		}
+		ops := retOperands(r)
+		if len(ops) != 1 {
+			return nil
+		}
+		nRet++
+		if isNilConst(ops[0]) {
+			continue
+		}
+		lit, isSl := ops[0].(*ssa.Slice)
+		if !isSl || lit.Low != nil || lit.High != nil || lit.Max != nil {
+			return nil
+		}
+		al, isAl := lit.X.(*ssa.Alloc)
+		if !isAl {
+			return nil
+		}
+		var elems []ssa.Value
+		for _, ref := range *al.Referrers() {
+			switch x := ref.(type) {
+			case *ssa.IndexAddr:
+				for _, r2 := range *x.Referrers() {
+					st, isSt := r2.(*ssa.Store)
+					if !isSt || st.Addr != ssa.Value(x) {
+						return nil
+					}
+					elems = append(elems, st.Val)
+				}
+			case *ssa.Slice:
+				if x != lit {
+					return nil
+				}
+			case *ssa.DebugRef:
+			default:
+				return nil
+			}
+		}
+		if at, isArr := al.Type().Underlying().(*types.Pointer).Elem().Underlying().(*types.Array); !isArr || int64(len(elems)) != at.Len() {
+			return nil // an element keeps the zero value, or is written more than once
+		}
+		facts := lgG.subFacts(lgG.boundFacts(b))
+		var keep []elemPost
+		for _, c := range cands {
+			okAll := true
+			for _, e := range elems {
+				eb, eo := lgG.term(e)
+				switch c.kind {
+				case "nonneg":
+					okAll = okAll && entails(facts, "0", eb, eo)
+				case "ltParam":
+					okAll = okAll && entails(facts, eb, lgG.key(g.Params[c.param]), -1-eo)
+				}
+			}
+			if okAll {
+				keep = append(keep, c)
+			}
+		}
+		cands = keep
+	}
+	if nRet == 0 {
+		cands = nil
+	}
+	w.memoMu.Lock()
+	w.postMemo[mk] = cands
+	w.memoMu.Unlock()
+	return cands
+}
+
 // ---- canonical keys ---------------------------------------------------------
 
 // pureCallName returns a name for calls whose result depends only on their
@@ -2034,6 +2145,33 @@ func (lg *ledger) boundFacts(b *ssa.BasicBlock) (out []diffC) {
 				// k = a - b with b >= 0 known structurally  =>  k <= a ; handled lazily in entailsSub
 				_ = x
 			case *ssa.UnOp:
+				func() {
+				// an element of the []int a function of the module returned: what the function guarantees about its elements
+				if x.Op != token.MUL || !isIntType(x.Type()) || lg.depth >= 2 {
+					return
+				}
+				ia, isIA := x.X.(*ssa.IndexAddr)
+				if !isIA {
+					return
+				}
+				call, isCall := ia.X.(*ssa.Call)
+				if !isCall || call.Call.StaticCallee() == nil || call.Call.StaticCallee() == lg.fn {
+					return
+				}
+				g := call.Call.StaticCallee()
+				if len(g.Params) != len(call.Call.Args) {
+					return
+				}
+				for _, ps := range lg.w.elemPostsOf(g) {
+					switch ps.kind {
+					case "nonneg":
+						out = append(out, diffC{"0", lg.key(x), 0})
+					case "ltParam":
+						ab, ao := lg.term(call.Call.Args[ps.param])
+						out = append(out, diffC{lg.key(x), ab, ao - 1})
+					}
+				}
+				}()
 				// a load of an int field that is only ever incremented from a non-negative start
 				if x.Op == token.MUL {
 					if fa, ok := x.X.(*ssa.FieldAddr); ok && isIntType(x.Type()) && lg.w.fieldNonNeg(fa) {
